@@ -161,9 +161,10 @@ def _execute(program, stats, hist):
                             finite = False
                             break
                         try:
-                            h.criterion.cash(plx)
+                            h.criterion(plx)
                         except Exception:
-                            break
+                            finite = False   # the criterion itself cannot evaluate this sample (e.g. bisect's iteration cap
+                            break            # inside quadratic CVaR on a constant float32 sample): not a cash()/price() matter
             except Exception:
                 finite = True
             if not finite:
